@@ -35,7 +35,7 @@ class Contract:
                  setup=None, props=(), name=None, raises_only_if=False, notes="", assumes=(), result_kind=None,
                  frame=None, extra_names=None, timeout=10000, path_ensures=None, stubs=None, tier="quick",
                  case=None, native_seams=None, ghost_frame=None, block=None, outputs=None,
-                 exc_ensures=None):
+                 exc_ensures=None, native_ensures=None):
         self.target = target
         self.params = params
         self.requires = list(requires)
@@ -55,6 +55,9 @@ class Contract:
         self.timeout = timeout
         self.path_ensures = path_ensures
         self.tier = tier                 # "quick": every run; "thorough": only in the thorough tier
+        # clauses evaluated only by the native replay / search (equivalent re-statements of ensures that mention
+        # function locals and are therefore not evaluable on the result alone); never counted as discharged
+        self.native_ensures = list(native_ensures or [])
         self.exc_ensures = list(exc_ensures or [])   # (name, expr) over the state at an exceptional exit
         self.outputs = dict(outputs or {})   # block contracts: locals the block may define (arbitrary value where it did not)
         self.block = block               # (name, selector(func ast) -> statements): verify an extracted statement block
